@@ -55,6 +55,8 @@ entity mask / metadata (DISPATCH)                                               
  M4 read-meta-guards-only-metadata    a read_meta test selects between decoding and skipping metadata only: the `no` side either
                                   just skips, or calls a sibling that makes the same object-content calls
  M5 created-object-committed      every object built is committed on all normal paths (uncommitted data never reaches the consumer)
+ M7 no-meta-only-for-single-version-files   Reader stores a caller-supplied read_meta value only after has_multiple_object_versions()
+                                  was false (history / change files carry visibility in the metadata)
  M6 read-options-forwarded        the entity mask / read_meta option is never replaced by a constant on its way from the Reader to the
                                   decoders (constructor initialisers, arguments handed on, accessors)
 
@@ -68,9 +70,11 @@ Dropped from DESIGN 5/C05 clause 5: "the guarded region contains NOTHING but dec
 weaker, exact form M4 (no object-content call on the metadata side; siblings agree on content calls).
 """
 from ..excflow import must_call, thread_starts
-from ..flow import describe_path, guards_of, path_search
+from ..flow import describe_path, path_search
 from .. import c05_util as U
 from . import c19
+
+guards_of = U.guards        # flow.guards_of + named locals looked through
 
 KNOWN = [
     # (rule, key, explanation) -- genuine findings on the pristine tree: none
@@ -168,6 +172,16 @@ def _cond_tests(fn, pred):
             else:
                 break
         x = fn.nodes.get(cid) if cid is not None else None
+        # a named local that holds the outcome of the test (`const bool done = at_end(x); if (done)`)
+        seen = 0
+        while x is not None and x.get('k') == 'var' and x.get('vk') == 'local' and seen < 3:
+            seen += 1
+            cid = U.single_init(fn, x['d'])
+            cid = fn.strip(cid) if cid is not None else None
+            while cid is not None and fn.nodes.get(cid, {}).get('k') == 'unop' and fn.nodes[cid].get('op') == '!':
+                neg = not neg
+                cid = fn.strip(fn.nodes[cid]['sub'])
+            x = fn.nodes.get(cid) if cid is not None else None
         if x is not None and pred(x):
             t, f = b['succs']
             out.append((b, cid, f, t) if neg else (b, cid, t, f))
@@ -362,6 +376,8 @@ def _flows_to(fn, nid, stop_calls):
                 if isinstance(v.get('init'), int) and (v['init'] == x or x in fn.subtree(v['init'])):
                     return ('decl', v['d'])
             return None
+        elif k == 'return':
+            return ('return', p)
         else:
             return None
     return None
@@ -388,44 +404,72 @@ def _carriers(fn, enq, d):
                    for x in fn.subtree(a))}
 
 
+def _must_enqueue_elems(fb, fn, memo, elem=U.BUF):
+    """Elements of fn that enqueue on the queue of future<elem> whenever they are executed: the push itself, or a call of a function
+    every normal path of which does (a helper's body is treated as inlined)."""
+    return U.hit_elems(fb, fn, lambda g, n: _is_call(n, U.QUEUE + '::push') and U.queue_elem(n.get('rclsT', '')) == elem, _abnormal, 4, memo)
+
+
+def _future_enqueued(fb, f, s, memo, mmemo, callers, depth):
+    """None if the future produced by call s in f goes straight into an enqueue on the Buffer queue: as the argument of the enqueuing
+    call, through a local that is enqueued on every path before s is reached again, or -- when f merely returns it (a helper that
+    wraps Pool::submit) -- at every call site of f.  Else (site, message)."""
+    enq = {n['id'] for n in f.all_nodes() if _enqueuing(fb, f, n, U.BUF, memo)}
+    must_elems = _must_enqueue_elems(fb, f, mmemo)
+    tgt = _flows_to(f, s['id'], enq)
+    if isinstance(tgt, int):
+        return None
+    if isinstance(tgt, tuple) and tgt[0] == 'decl':
+        carriers = _carriers(f, enq, tgt[1]) & must_elems
+        se = _elem(f, s['id'])
+        w = path_search(f, se, lambda e: _exit_t(e) or e == se, lambda e: e in carriers or _abnormal(f, e))
+        if carriers and w is None:
+            return None
+        return (f.loc(s['id']), 'the future returned by Pool::submit is kept in a local and not enqueued on every path before the next blob / '
+                'the exit: %s' % describe_path(f, w))
+    if isinstance(tgt, tuple) and tgt[0] == 'return' and depth > 0:
+        sites = callers.get(f.usr, [])
+        if sites:
+            for (g, c) in sites:
+                v = _future_enqueued(fb, g, c, memo, mmemo, callers, depth - 1)
+                if v is not None:
+                    return v
+            return None
+    return (f.loc(s['id']), 'the future returned by Pool::submit does not flow straight into the enqueue on the osmdata queue (stored or passed '
+            'elsewhere: the queue order would no longer be the file order)')
+
+
 def rule_push_precedes_work(fb, R, task_types):
     parser_h = _hier(fb, PARSER)
     memo = {}
+    mmemo = {}
+    callers = _callers(fb, ())
     n_sub = 0
     for f in _dedupe(fb.functions):
         if not f.has_cfg or U.owner_class(fb, f) not in parser_h:
             continue
         subs = [n for n in f.all_nodes() if _is_call(n, POOL + '::submit')]
-        if not subs:
+        ctors = [n for n in f.all_nodes() if n.get('k') == 'construct' and n.get('rclsT') in task_types and not n.get('copymove')
+                 and not n.get('elidable')]
+        if not subs and not ctors:
             continue
         enq = {n['id'] for n in f.all_nodes() if _enqueuing(fb, f, n, U.BUF, memo)}
-        enq_elems = {_elem(f, e) for e in enq}
+        enq_elems = {_elem(f, e) for e in enq}                          # may enqueue (for "at most once")
+        must_elems = _must_enqueue_elems(fb, f, mmemo)                  # enqueue on every path through the callee (for "at least once")
         for s in subs:
             n_sub += 1
             key = '%s#submit' % f.q
-            tgt = _flows_to(f, s['id'], enq)
-            if isinstance(tgt, int):
-                R.ok('O1-submit-future-enqueued-directly', key, f.loc(s['id']), 'argument of ' + f.nodes[tgt]['q'])
-            elif isinstance(tgt, tuple):
-                d = tgt[1]
-                carriers = _carriers(f, enq, d)
-                se = _elem(f, s['id'])
-                w = path_search(f, se, lambda e: _exit_t(e) or e == se, lambda e: e in carriers)
-                R.check(bool(carriers) and w is None, 'O1-submit-future-enqueued-directly', key, f.loc(s['id']),
-                        'the future returned by Pool::submit is kept in a local and not enqueued on every path before the next blob / the exit: %s'
-                        % describe_path(f, w))
+            v = _future_enqueued(fb, f, s, memo, mmemo, callers, 2)
+            if v is None:
+                R.ok('O1-submit-future-enqueued-directly', key, f.loc(s['id']))
             else:
-                R.bad('O1-submit-future-enqueued-directly', key, f.loc(s['id']),
-                      'the future returned by Pool::submit does not flow straight into the enqueue on the osmdata queue (stored or passed elsewhere: '
-                      'the queue order would no longer be the file order)')
+                R.bad('O1-submit-future-enqueued-directly', key, v[0], v[1])
         # one enqueue per decoder construction
-        ctors = [n for n in f.all_nodes() if n.get('k') == 'construct' and n.get('rclsT') in task_types and not n.get('copymove')
-                 and not n.get('elidable')]
         for c in ctors:
             ce = _elem(f, c['id'])
             key = '%s#%s' % (f.q, c['rclsT'])
-            w = path_search(f, ce, lambda e: _exit_t(e) or e == ce, lambda e: e in enq_elems)
-            ok = R.check(w is None and bool(enq_elems), 'O1-one-enqueue-per-blob', key, f.loc(c['id']),
+            w = path_search(f, ce, lambda e: _exit_t(e) or e == ce, lambda e: e in must_elems or _abnormal(f, e))
+            ok = R.check(w is None and bool(must_elems), 'O1-one-enqueue-per-blob', key, f.loc(c['id']),
                          'after constructing the blob decoder a path reaches the next blob / the exit without enqueuing its result (block lost): %s'
                          % describe_path(f, w))
             if ok:
@@ -553,82 +597,122 @@ def rule_reader_read(fb, R, reader=READER):
                 eod_rets.add(r['id'])
             else:
                 data_rets.append(r)
-        # ---- R4a
+        # ---- R4a  (a store made inside a helper of the class counts: its body is treated as inlined)
         if sf is not None:
-            stores = set()
-            for n in fn.all_nodes():
-                if n.get('k') == 'assign' and n.get('op') == '=' and fn.is_this_member(n['lhs'], sf):
-                    e = fn.sn(n['rhs'])
-                    if e is not None and e.get('vk') == 'enumconst' and e.get('q') != okay:
-                        stores.add(_elem(fn, n['id']))
+            def is_store(f, n):
+                if n.get('k') == 'assign' and n.get('op') == '=' and f.is_this_member(n['lhs'], sf) and U.owner_class(fb, f) == reader:
+                    e = f.sn(n['rhs'])
+                    return e is not None and e.get('vk') == 'enumconst' and e.get('q') != okay
+                return False
+            stores = U.hit_elems(fb, fn, is_store, _abnormal)
             w = path_search(fn, e_true, lambda e: e in eod_rets or _exit_t(e), lambda e: e in stores or _abnormal(fn, e),
                             from_block_start=True) if e_true is not None else None
             R.check(w is None and bool(eod_rets), 'R4-end-of-data-marks-eof', fn.q + '#end-of-data', fn.loc(einner),
                     'on the end-of-data branch of %s a path returns without storing a status other than %s into %s: a further read() would '
                     'block on / read from the shut-down queue instead of failing: %s' % (fn.q, okay, sf, describe_path(fn, w)))
         # ---- R3
-        tests = _cond_tests(fn, lambda x: _is_call(x, BUFFER + '::has_nested_buffers') and _recv_root(fn, x) == B)
         key3 = fn.q + '#popped'
+        dr = {r['id'] for r in data_rets}
+        sites, problems = _unnest_sites(fb, fn, B, bb, reader, {Pe} | dr)
         if not data_rets:
             R.broken('%s: no return of the popped buffer outside the end-of-data branch' % fn.q)
-        elif not tests:
+        elif not sites and not problems:
             R.bad('R3-popped-nested-buffer-stashed', key3, fn.loc(P['id']),
                   '%s returns the popped buffer without testing has_nested_buffers(): nested (older) buffers would be handed to the caller '
                   'inside the newest one / never iterated' % fn.q)
+        elif problems:
+            g, nid, msg = problems[0]
+            R.bad('R3-popped-nested-buffer-stashed', key3, g.loc(nid), msg)
         else:
-            tconds = {_elem(fn, inner) for (_blk, inner, _t, _f) in tests}
-            dr = {r['id'] for r in data_rets}
-            w = path_search(fn, Pe, lambda e: e in dr, lambda e: e in tconds or e in eod_rets)
-            ok = R.check(w is None, 'R3-popped-nested-buffer-stashed', key3, fn.loc(P['id']),
-                         'a path from the pop to a data return does not test has_nested_buffers() on the popped buffer: %s' % describe_path(fn, w))
-            for (_tb, tinner, t_true, _t_false) in tests if ok else []:
-                # S1: back buffer <- popped buffer, executed only when the test was true; S2: popped variable <- deepest nested buffer
-                # of the back buffer, after S1
-                s1 = None
-                for n in fn.all_nodes():
-                    lhs, rhs = _assign_from(fn, n)
-                    if lhs is not None and lhs[0] == 'field' and lhs[2] == bb and rhs is not None and fn.root_var(rhs) == B \
-                            and any(fn.strip(c) == tinner and sn for (c, sn, _b) in guards_of(fn, n['id'])):
-                        s1 = n
-                s2 = []
-                for n in fn.all_nodes():
-                    lhs, rhs = _assign_from(fn, n)
-                    if s1 is not None and lhs == B and rhs is not None and fn.elem_dominates(_elem(fn, s1['id']), _elem(fn, n['id'])) and \
-                            any(_is_call(fn.nodes[x], BUFFER + '::get_last_nested') and fn.is_this_member(fn.nodes[x].get('recv'), bb)
-                                for x in fn.subtree(rhs)):
-                        s2.append(n)
-                if s1 is None or not s2 or t_true is None:
-                    helper = [n for n in fn.all_nodes() if n.get('k') == 'call' and n.get('rcls') == reader and
-                              any(fn.strip(c) == tinner and sn for (c, sn, _b) in guards_of(fn, n['id']))]
-                    if helper:
-                        R.broken('%s: nested-buffer handling was moved into %s; shape not modelled' % (fn.q, helper[0]['q']))
-                    else:
-                        R.bad('R3-popped-nested-buffer-stashed', key3, fn.loc(tinner),
-                              'when the popped buffer has nested buffers %s must move it to %s and hand out %s.get_last_nested(); that sequence '
-                              'is missing' % (fn.q, bb, bb))
-                    continue
-                s2e = {_elem(fn, n['id']) for n in s2}
-                w = path_search(fn, t_true, lambda e: e in dr or e == Pe or _exit_t(e), lambda e: e in s2e or _abnormal(fn, e),
-                                from_block_start=True)
-                R.check(w is None, 'R3-popped-nested-buffer-stashed', key3, fn.loc(tinner),
-                        'a popped buffer with nested buffers can be returned / dropped without being moved to %s and unwound from its deepest '
-                        'nested buffer: %s' % (bb, describe_path(fn, w)))
-        # ---- R2b whole back buffer only without nested
+            w = path_search(fn, Pe, lambda e: e in dr, lambda e: e in sites or e in eod_rets)
+            R.check(w is None, 'R3-popped-nested-buffer-stashed', key3, fn.loc(P['id']),
+                    'a path from the pop to a data return does not test has_nested_buffers() on the popped buffer: %s' % describe_path(fn, w))
+    # ---- R2b: wherever the back buffer is handed out as a whole (in read() or a helper of the class) it has no nested buffers
+    n2 = 0
+    for fn in _dedupe(fb.functions):
+        if not fn.has_cfg or U.owner_class(fb, fn) != reader or fn.kind in ('ctor', 'dtor'):
+            continue
         for n in fn.all_nodes():
             lhs, rhs = _assign_from(fn, n)
+            if n.get('k') == 'decl':
+                for v in n['vars']:
+                    if v['tC'] == BUFFER and isinstance(v.get('init'), int):
+                        lhs, rhs = ('var', v['d'], v['name']), v['init']
+            elif n.get('k') == 'return' and 'sub' in n:
+                lhs, rhs = ('return',), n['sub']
             if lhs is None or rhs is None:
                 continue
             whole = fn.root_var(rhs)
             if whole is not None and whole[0] == 'field' and whole[2] == bb and lhs != whole and \
                     not any(fn.nodes[x].get('k') == 'call' and fn.nodes[x].get('q', '').startswith(BUFFER + '::') for x in fn.subtree(rhs)):
-                ok = False
-                for (c, sense, _b) in guards_of(fn, n['id']):
-                    x = fn.sn(c)
-                    if _is_call(x, BUFFER + '::has_nested_buffers') and fn.is_this_member(x.get('recv'), bb) and not sense:
-                        ok = True
-                R.check(ok, 'R2-whole-buffer-only-without-nested', fn.q + '#' + bb, fn.loc(n['id']),
+                n2 += 1
+                ok = any(_is_call(fn.sn(c), BUFFER + '::has_nested_buffers') and fn.is_this_member(fn.sn(c).get('recv'), bb) and not sense
+                         for (c, sense, _b) in guards_of(fn, n['id']))
+                R.check(ok, 'R2-whole-buffer-only-without-nested', '%s#%s' % (reader, bb), fn.loc(n['id']),
                         '%s hands out %s as a whole although it may still have nested (older) buffers: they would be delivered after / inside '
                         'the newest one' % (fn.q, bb))
+    if n2 == 0:
+        # nothing hands the back buffer out as a whole: then its own (newest) data would never be delivered
+        R.bad('R2-whole-buffer-only-without-nested', '%s#%s' % (reader, bb), '%s:%d' % (rec.file, rec.line),
+              'no method of %s ever hands out %s itself (only its nested buffers): the newest block of every nest would never be delivered'
+              % (reader, bb))
+
+
+def _unnest_sites(fb, fn, B, bb, reader, stops, depth=2):
+    """(sites, problems).  sites: elements of fn after which the buffer variable B (local, or by-reference parameter) no longer carries
+    nested buffers: a has_nested_buffers() test on B whose true side moves B into the back-buffer member bb and re-assigns B from
+    bb.get_last_nested() before a return / `stops` element is reached; or a call that hands B to a method of the class whose body does
+    exactly that for its parameter on every path (helper = inlined).  problems: [(Fn, node id, message)] for a test whose true side is wrong."""
+    sites = set()
+    problems = []
+    for (_tb, tinner, t_true, _t_false) in _cond_tests(fn, lambda x: _is_call(x, BUFFER + '::has_nested_buffers') and _recv_root(fn, x) == B):
+        s1 = None
+        for n in fn.all_nodes():
+            lhs, rhs = _assign_from(fn, n)
+            if lhs is not None and lhs[0] == 'field' and lhs[2] == bb and rhs is not None and fn.root_var(rhs) == B \
+                    and any(fn.strip(c) == tinner and sn for (c, sn, _b) in guards_of(fn, n['id'])):
+                s1 = n
+        s2 = []
+        for n in fn.all_nodes():
+            lhs, rhs = _assign_from(fn, n)
+            if s1 is not None and lhs == B and rhs is not None and fn.elem_dominates(_elem(fn, s1['id']), _elem(fn, n['id'])) and \
+                    any(_is_call(fn.nodes[x], BUFFER + '::get_last_nested') and fn.is_this_member(fn.nodes[x].get('recv'), bb)
+                        for x in fn.subtree(rhs)):
+                s2.append(n)
+        if s1 is None or not s2 or t_true is None:
+            problems.append((fn, tinner, 'when the buffer taken from the queue has nested buffers %s must move it to %s and hand out '
+                             '%s.get_last_nested(); that sequence is missing' % (fn.q, bb, bb)))
+            continue
+        s2e = {_elem(fn, n['id']) for n in s2}
+        rets = {n['id'] for n in fn.all_nodes() if n.get('k') == 'return'}
+        w = path_search(fn, t_true, lambda e: e in stops or e in rets or _exit_t(e), lambda e: e in s2e or _abnormal(fn, e), from_block_start=True)
+        if w is not None:
+            problems.append((fn, tinner, 'a buffer with nested buffers can be returned / dropped without being moved to %s and unwound from '
+                             'its deepest nested buffer: %s' % (bb, describe_path(fn, w))))
+        else:
+            sites.add(_elem(fn, tinner))
+    if depth > 0:
+        for n in fn.all_nodes():
+            if n.get('k') != 'call' or n.get('rcls') != reader or not n.get('u'):
+                continue
+            idx = [i for i, a in enumerate(n.get('args', [])) if a is not None and fn.root_var(a) == B]
+            if len(idx) != 1:
+                continue
+            gs = [g for g in fb.by_usr.get(n['u'], []) if g.has_cfg and len(g.params) > idx[0]]
+            ok = bool(gs)
+            for g in gs:
+                p = g.params[idx[0]]
+                if not p['tC'].replace(' ', '').endswith(BUFFER.replace(' ', '') + '&') or p['tC'].startswith('const '):
+                    ok = False
+                    continue
+                gs_sites, gs_problems = _unnest_sites(fb, g, ('var', p['d'], p['name']), bb, reader, set(), depth - 1)
+                problems.extend(gs_problems)
+                if gs_problems or not gs_sites or path_search(g, g.entry, _exit_t, lambda e: e in gs_sites or _abnormal(g, e),
+                                                               from_block_start=True) is not None:
+                    ok = False
+            if ok:
+                sites.add(_elem(fn, n['id']))
+    return sites, problems
 
 
 def rule_last_nested_guarded(fb, R):
@@ -725,7 +809,7 @@ def rule_wrapper_pop(fb, R):
 
 def _calls_end(fn, cid):
     """Expression contains a call of a function named end (resolved callee)."""
-    return any(fn.nodes[y].get('k') == 'call' and fn.nodes[y].get('q', '').rsplit('::', 1)[-1] == 'end' for y in fn.subtree(cid))
+    return any(fn.nodes[y].get('k') == 'call' and fn.nodes[y].get('q', '').rsplit('::', 1)[-1] == 'end' for y in U.deep_subtree(fn, cid))
 
 
 def rule_iterator(fb, R):
@@ -769,15 +853,12 @@ def rule_iterator_refill(fb, R):
             continue
         re_ = _elem(fn, reads[0]['id'])
         ok = False
-        for blk in fn.blocks.values():
-            if blk.get('termcls') not in ('DoStmt', 'WhileStmt', 'ForStmt') or 'cond' not in blk or len(blk['succs']) != 2:
+        # any test `iter == end()` / `iter != end()` inside the loop (loop condition, or an if with break), named locals looked through
+        for (blk, inner, t_true, t_false) in _cond_tests(fn, lambda x: x.get('k') == 'call' and x.get('op') in ('==', '!=')):
+            x = fn.nodes[inner]
+            if not _calls_end(fn, inner) or not any(fn.in_range(blk['cond'], l['b'], l['e']) or fn.in_range(inner, l['b'], l['e']) for l in fn.loops):
                 continue
-            x = fn.sn(blk['cond'])
-            if x is None or x.get('k') != 'call' or x.get('op') not in ('==', '!='):
-                continue
-            if not _calls_end(fn, blk['cond']):
-                continue
-            cont, leave = (blk['succs'][0], blk['succs'][1]) if x['op'] == '==' else (blk['succs'][1], blk['succs'][0])
+            cont, leave = (t_true, t_false) if x['op'] == '==' else (t_false, t_true)
             again = cont is not None and path_search(fn, cont, lambda e: e == re_, lambda e: False, from_block_start=True) is not None
             out = leave is None or path_search(fn, leave, lambda e: e == re_, lambda e: False, from_block_start=True) is None
             if again and out:
@@ -846,7 +927,7 @@ def _implies_nonzero(fn, cond, sense, is_committed):
     if is_committed(x):
         return bool(sense)
     if x.get('k') == 'binop' and x['op'] in ('!=', '==', '>', '<', '>=', '<='):
-        l, r = fn.sn(x['lhs']), fn.sn(x['rhs'])
+        l, r = fn.sn(U.resolve(fn, x['lhs'])), fn.sn(U.resolve(fn, x['rhs']))      # named locals for the operands looked through
         lz, rz = fn.const_value(x['lhs']) == 0, fn.const_value(x['rhs']) == 0
         if is_committed(l) and rz:
             return (x['op'] in ('!=', '>') and sense) or (x['op'] in ('==', '<=') and not sense)
@@ -909,7 +990,11 @@ def rule_nested_buffers(fb, R):
 
     # ---- B2
     for g in gis:
-        olds = [v for n in g.all_nodes() if n.get('k') == 'decl' for v in n['vars'] if v['tC'].startswith('std::unique_ptr<' + BUFFER)]
+        # the local that owns the buffer split off (initialised from the `new Buffer{memory, capacity, committed}`)
+        olds = [v for n in g.all_nodes() if n.get('k') == 'decl' for v in n['vars']
+                if v['tC'].startswith('std::unique_ptr<' + BUFFER) and isinstance(v.get('init'), int) and any(
+                    g.nodes[y].get('k') == 'construct' and g.nodes[y].get('q') == BUFFER + '::(ctor)' and len(g.nodes[y].get('args', [])) >= 3
+                    for y in U.deep_subtree(g, v['init']))]
         link_old = link_this = None
         for n in g.all_nodes():
             lhs, rhs = _assign_from(g, n)
@@ -918,9 +1003,10 @@ def rule_nested_buffers(fb, R):
             l = g.sn(n['recv']) if n.get('k') == 'call' else g.sn(n['lhs'])
             if l is None or l.get('k') != 'member' or l['name'] != nf:
                 continue
-            src = g.root_var(rhs)
+            src = U.source_root(g, rhs)          # a named local that carries the chain for a moment is looked through
             if lhs[0] == 'var' and any(lhs[1] == v['d'] for v in olds) and src is not None and src[0] == 'field' and src[2] == nf:
                 link_old = n
+            src = g.root_var(rhs)
             if lhs[0] == 'field' and src is not None and src[0] == 'var' and any(src[1] == v['d'] for v in olds):
                 link_this = n
         for n in g.all_nodes():
@@ -1003,34 +1089,60 @@ def rule_nested_buffers(fb, R):
         if cur is None:
             R.bad('B1-last-nested-walks-to-tail', key, fn.loc(r['id']), 'get_last_nested() does not return a %s link' % nf)
             continue
+        def hops(nid, budget=12):
+            """number of nested-link steps from the cursor variable to the object denoted by nid (named locals looked through), or None"""
+            cnt = 0
+            while nid is not None and budget > 0:
+                budget -= 1
+                x = fn.sn(nid)
+                if x is None:
+                    return None
+                k = x.get('k')
+                if k == 'member' and x.get('field'):
+                    if x['name'] != nf:
+                        return None
+                    cnt += 1
+                    nid = x['base']
+                elif k == 'call' and x.get('recv') is not None and x.get('q', '').startswith('std::unique_ptr::'):
+                    nid = x['recv']
+                elif k == 'call' and x.get('q') in ('std::move', 'std::forward') and x.get('args'):
+                    nid = x['args'][0]
+                elif k == 'unop' and x.get('op') in ('*', '&'):
+                    nid = x['sub']
+                elif k == 'var':
+                    if ('var', x['d'], x['name']) == cur:
+                        return cnt
+                    init = U.single_init(fn, x['d']) if x.get('vk') == 'local' else None
+                    if init is None:
+                        return None
+                    nid = init
+                else:
+                    return None
+            return None
+
         ok = False
         why = 'no loop that advances along %s until the successor has no nested buffer' % nf
-        for (c, sense, b) in guards_of(fn, r['id']):
-            blk = fn.blocks[b]
-            if blk.get('termcls') not in ('WhileStmt', 'ForStmt', 'DoStmt') or sense:
-                continue
-            x = fn.sn(c)
-            if not _is_call(x, BUFFER + '::has_nested_buffers'):
-                continue
-            # receiver: cursor -> m_next -> (deref)
-            via = [fn.nodes[y] for y in fn.subtree(x['recv'])] if x.get('recv') is not None else []
-            on_succ = any(v.get('k') == 'member' and v.get('name') == nf and fn.root_var(v['base']) == cur for v in via)
-            if not on_succ:
-                why = 'the loop tests has_nested_buffers() on the cursor itself, not on its successor (returns one level too early / late)'
-                continue
-            # body advances the cursor to its successor
-            adv = False
-            for n in fn.all_nodes():
-                lhs, rhs = _assign_from(fn, n)
-                if lhs == cur and rhs is not None and cur[0] == 'var':
-                    if any(fn.nodes[y].get('k') == 'member' and fn.nodes[y].get('name') == nf and fn.root_var(fn.nodes[y]['base']) == cur
-                           for y in fn.subtree(rhs)):
-                        if any(fn.in_range(n['id'], l['b'], l['e']) for l in fn.loops):
-                            adv = True
-            if adv:
-                ok = True
-            else:
-                why = 'the loop does not advance the cursor to its %s' % nf
+        if cur[0] != 'var' or hops(m['base']) != 0:
+            why = 'the link returned is not the one of the cursor'
+        else:
+            for (c, sense, _b) in guards_of(fn, r['id']):
+                x = fn.sn(c)
+                if sense or not _is_call(x, BUFFER + '::has_nested_buffers') or x.get('recv') is None:
+                    continue
+                if not any(fn.in_range(x['id'], l['b'], l['e']) for l in fn.loops):
+                    continue        # a single test outside any loop: one step only
+                if hops(x['recv']) != 1:
+                    why = 'the loop tests has_nested_buffers() on the cursor itself (or further down), not on its successor (returns one level too early / late)'
+                    continue
+                adv = False
+                for n in fn.all_nodes():
+                    lhs, rhs = _assign_from(fn, n)
+                    if lhs == cur and rhs is not None and hops(rhs) == 1 and any(fn.in_range(n['id'], l['b'], l['e']) for l in fn.loops):
+                        adv = True
+                if adv:
+                    ok = True
+                else:
+                    why = 'the loop does not advance the cursor to its %s' % nf
         R.check(ok, 'B1-last-nested-walks-to-tail', key, fn.site,
                 'get_last_nested() must return the LAST buffer of the chain (the oldest data): %s' % why)
 
@@ -1040,6 +1152,7 @@ def rule_nested_buffers(fb, R):
 def rule_parser_flush(fb, R):
     parser_h = _hier(fb, PARSER)
     memo = {}
+    mmemo = {}
     # F1
     n1 = 0
     for fn in _dedupe(fb.functions):
@@ -1056,7 +1169,7 @@ def rule_parser_flush(fb, R):
                 R.ok('F1-taken-nested-buffer-is-sent', key, fn.loc(n['id']))
             elif isinstance(tgt, tuple):
                 d = tgt[1]
-                carriers = _carriers(fn, enq, d)
+                carriers = _carriers(fn, enq, d) & _must_enqueue_elems(fb, fn, mmemo)
                 w = path_search(fn, _elem(fn, n['id']), _exit_t, lambda e: e in carriers or _abnormal(fn, e))
                 R.check(bool(carriers) and w is None, 'F1-taken-nested-buffer-is-sent', key, fn.loc(n['id']),
                         'the buffer taken out with get_last_nested() is not sent to the output queue on every path (it is destroyed with '
@@ -1095,7 +1208,7 @@ def rule_parser_flush(fb, R):
                         takers.append((n, lhs[1]))
         for (n, d) in takers:
             enq = {m['id'] for m in fn.all_nodes() if _enqueuing(fb, fn, m, U.BUF, memo)}
-            carriers = _carriers(fn, enq, d)
+            carriers = _carriers(fn, enq, d) & _must_enqueue_elems(fb, fn, mmemo)
             w = path_search(fn, _elem(fn, n['id']), _exit_t, lambda e: e in carriers or _abnormal(fn, e))
             R.check(bool(carriers) and w is None, 'F4-swapped-out-buffer-is-sent', '%s#%s' % (fn.q, bf), fn.loc(n['id']),
                     'a local buffer takes over the contents of %s in %s but is not enqueued on every path: the objects collected so far are '
@@ -1124,6 +1237,8 @@ def rule_parser_flush(fb, R):
                     continue        # its operands are listed separately
                 if x is not None and x.get('k') == 'unop' and x['op'] == '!':
                     continue        # likewise
+                if x is not None and x.get('k') == 'var' and x.get('vk') == 'local' and U.single_init(fn, x['d']) is not None:
+                    continue        # a named condition: its initialiser is listed separately
                 if _implies_nonzero(fn, c, sense, is_committed):
                     continue
                 extra.append('%s is %s' % (fn.expr(c), 'true' if sense else 'false'))
@@ -1310,6 +1425,7 @@ def rule_xml_builders(fb, R, cls=NS + 'XMLParser'):
     if len(kinds) < 4:
         R.broken('%s: fewer than 4 builder members of a known kind (%s)' % (cls, sorted(kinds)))
         return
+    callers = _callers(fb, ())
     for fn in _dedupe(fb.functions):
         if not fn.has_cfg or U.owner_class(fb, fn) != cls:
             continue
@@ -1326,6 +1442,9 @@ def rule_xml_builders(fb, R, cls=NS + 'XMLParser'):
             k = kinds[r['name']]
             ms = U.mask_guards(fn, n['id'], guards_of)
             good = any(mk == k and s for (mk, s) in ms) and not any(mk != k and s for (mk, s) in ms)
+            if not good and not ms:
+                # a helper of the class without a mask test of its own: every call site must be guarded (body = inlined)
+                good = _mask_verdict(fb, fn, n['id'], k, callers) == 'ok'
             cur = per.setdefault(r['name'], [True, None, k])
             if not good and cur[0]:
                 cur[0] = False
@@ -1567,11 +1686,94 @@ def rule_mask_forwarded(fb, R, files=OPTION_FILES):
             flds = [f['name'] for f in rec.fields if f['tC'].replace('const ', '') == fn.retC.replace('const ', '')]
             rets = [n for n in fn.all_nodes() if n.get('k') == 'return' and 'sub' in n]
             n_inst += 1
-            ok = bool(rets) and all(fn.is_this_member(r['sub']) and (fn.sn(r['sub']) or {}).get('name') in flds for r in rets)
+            ok = bool(rets) and all(fn.is_this_member(U.resolve(fn, r['sub'])) and (fn.sn(U.resolve(fn, r['sub'])) or {}).get('name') in flds for r in rets)
             R.check(ok, 'M6-read-options-forwarded', fn.q + '#return', fn.site,
                     '%s must return the %s member (%s)' % (fn.q, fn.retC, ', '.join(flds)))
     if n_inst == 0:
         R.broken('no hand-over of the entity mask / read_meta option found')
+
+
+def _single_version_guard(fn, nid, depth=0):
+    """nid executes only after <File>.has_multiple_object_versions() was seen to be false (directly, through a named local, or
+    -- for a private helper -- at every call site inside the class)."""
+    for (c, sense, _b) in guards_of(fn, nid):
+        x = fn.sn(c)
+        if x is not None and x.get('k') == 'var' and x.get('vk') == 'local':
+            init = U._single_init(fn, x['d'])
+            hops = 0
+            while init is not None and hops < 4:
+                y = fn.sn(init)
+                if y is not None and y.get('k') == 'unop' and y.get('op') == '!':
+                    sense = not sense
+                    init = y['sub']
+                    hops += 1
+                else:
+                    break
+            x = fn.sn(init) if init is not None else None
+        if _is_call(x, 'osmium::io::File::has_multiple_object_versions') and not sense:
+            return True
+    return False
+
+
+def rule_meta_history(fb, R, reader=READER):
+    """M7: for files with several versions of an object (history / change files) visibility travels in the metadata, so the Reader
+    must never hand read_meta::no to the parsers for them: every store of a non-constant (or `no`) value into the read_meta member
+    happens only after has_multiple_object_versions() was false."""
+    rec = fb.record(reader)
+    if rec is None:
+        R.broken('record %s not found' % reader)
+        return
+    flds = [f['name'] for f in rec.fields if f['tC'].replace('const ', '') == 'osmium::io::read_meta']
+    if len(flds) != 1:
+        R.broken('%s: expected one member of type osmium::io::read_meta, found %d' % (reader, len(flds)))
+        return
+    mf = flds[0]
+    callers = {}
+    for f in fb.functions:
+        if f.has_cfg and U.owner_class(fb, f) == reader:
+            for n in f.all_nodes():
+                if n.get('k') == 'call' and n.get('u') and n.get('rcls') == reader:
+                    callers.setdefault(n['u'], []).append((f, n))
+
+    def guarded(f, nid, depth=2):
+        if _single_version_guard(f, nid):
+            return True
+        # a private / protected helper: every call site inside the class must be guarded (public setters stand for themselves)
+        if depth == 0 or f.access == 'public' or f.kind == 'ctor':
+            return False
+        sites = [(g, c) for (g, c) in callers.get(f.usr, []) if g.q != f.q]
+        return bool(sites) and all(guarded(g, c['id'], depth - 1) for (g, c) in sites)
+
+    key = '%s#%s' % (reader, mf)
+    nstores = 0
+    bad = None
+    for fn in _dedupe(fb.functions):
+        if not fn.has_cfg or U.owner_class(fb, fn) != reader:
+            continue
+        for n in fn.all_nodes():
+            val = None
+            if n.get('k') == 'assign' and n.get('op') == '=' and fn.is_this_member(n['lhs'], mf):
+                val = n['rhs']
+            elif n.get('k') == 'init' and n.get('name') == mf and isinstance(n.get('init'), int):
+                val = n['init']
+            if val is None:
+                continue
+            v = fn.sn(val)
+            if v is not None and v.get('vk') == 'enumconst' and v.get('q', '').endswith('::yes'):
+                continue            # metadata on: always safe
+            nstores += 1
+            if not guarded(fn, n['id']) and bad is None:
+                bad = (fn, n)
+    if nstores == 0:
+        R.broken('%s: no store of a caller-supplied value into %s found (set_option(read_meta) expected)' % (reader, mf))
+    elif bad:
+        fn, n = bad
+        R.bad('M7-no-meta-only-for-single-version-files', key, fn.loc(n['id']),
+              '%s stores a caller-supplied read_meta value into %s without having seen has_multiple_object_versions() false: with '
+              'read_meta::no on a history / change file the PBF decoder skips the Info message that carries the visible flag, so deleted '
+              'versions are delivered as live objects' % (fn.q, mf))
+    else:
+        R.ok('M7-no-meta-only-for-single-version-files', key, '%s:%d' % (rec.file, rec.line), '%d stores, all guarded' % nstores)
 
 
 def _case_name(fn, blk):
@@ -1608,6 +1810,7 @@ def all_rules(fb, R, files=DECODER_FILES, pbf_files=PBF_FILES, opt_files=OPTION_
     rule_pbf_fields(fb, R, pbf_files)
     rule_read_meta(fb, R, files)
     rule_mask_forwarded(fb, R, opt_files)
+    rule_meta_history(fb, R)
 
 
 def run(ctx):
@@ -1648,6 +1851,7 @@ def run(ctx):
     R.expect('M3-xml-builder-used-under-own-mask', 12)       # data_level_element 4, start_element 7, end_element 1
     R.expect('M4-read-meta-guards-only-metadata', 4)         # decode_node/way/relation Info, dense selection
     R.expect('M5-created-object-committed', 16)              # 12 local builders + 4 XML builder members
+    R.expect('M7-no-meta-only-for-single-version-files', 1)  # Reader::m_read_metadata (set_option(read_meta))
     R.expect('M6-read-options-forwarded', 15)                # 6 ctor initialisers, 7 arguments handed on, 2 accessors
     R.expect('Q1-access-under-lock', 8)
     R.expect('Q2-insert-notifies-consumers', 1)
@@ -1670,4 +1874,5 @@ SELFTESTS = [(r, 'c05_reader.cpp', _selftest) for r in (
     'I1-iterator-skips-only-empty-buffers', 'B1-last-nested-walks-to-tail', 'B2-grow-internal-chains-older', 'B3-nested-buffer-never-empty',
     'B4-move-keeps-nested-chain', 'F1-taken-nested-buffer-is-sent', 'F2-run-flushes-final-buffer', 'F3-final-flush-sends-whole-buffer',
     'F4-swapped-out-buffer-is-sent', 'M1-object-creation-guarded-by-entity-mask', 'M2-pbf-field-consumed-once',
-    'M3-xml-builder-used-under-own-mask', 'M4-read-meta-guards-only-metadata', 'M5-created-object-committed', 'M6-read-options-forwarded')]
+    'M3-xml-builder-used-under-own-mask', 'M4-read-meta-guards-only-metadata', 'M5-created-object-committed', 'M6-read-options-forwarded',
+    'M7-no-meta-only-for-single-version-files')]
